@@ -8,7 +8,24 @@ git fetch -q /tmp/agents/$N/verif family-$N:family-$N
 git merge --no-edit family-$N >/tmp/merge-$N.log 2>&1 || true
 grep -i conflict /tmp/merge-$N.log || true
 for f in lean/Main.lean lean/PV.lean; do if grep -q '<<<<<<<' $f; then python3 tools/union_merge.py --dedup $f; fi; done
-if grep -q '<<<<<<<' tools/extract.py; then python3 tools/union_merge.py tools/extract.py; fi
+if grep -q '<<<<<<<' tools/extract.py; then
+  # both sides append code near the end of extract.py: git interleaves the hunks. Rebuild the file as
+  # main's version + the lines the branch added since the merge base, inserted before `def run():`
+  BASE=$(git merge-base HEAD family-$N)
+  git show HEAD:tools/extract.py > /tmp/extract_main_$N.py
+  git diff $BASE family-$N -- tools/extract.py | sed -n '/^@@/,$p' | grep '^+' | sed 's/^+//' > /tmp/extract_add_$N.py
+  python3 - "$N" <<'PYEOF'
+import sys, re, ast
+n = sys.argv[1]
+main = open('/tmp/extract_main_%s.py' % n).read()
+add = open('/tmp/extract_add_%s.py' % n).read()
+add = re.sub(r"^GENERATORS = \[gen_consts, (\w+)\]$", r"GENERATORS.append(\1)", add, flags=re.M)
+i = main.index("\ndef run():")
+new = main[:i] + "\n\n" + add + "\n" + main[i:]
+ast.parse(new)
+open('/verif/tools/extract.py', 'w').write(new)
+PYEOF
+fi
 sort -u lean/PV.lean -o lean/PV.lean
 # evidence files conflict trivially: keep ours
 for f in $(git diff --name-only --diff-filter=U); do case $f in evidence/*) git checkout --ours $f;; esac; done
